@@ -67,6 +67,7 @@ def gen_case(rng, caps):
         dense.append(col); lines.append(('inscol ' + ' '.join('%d:%d' % kv for kv in sorted(col.items()))).rstrip())
     for _ in range(rng.randrange(2, 5)): ins()
     lines.append('obs %d' % R)
+    if rng.random() < 0.2 and not caps.get('rm'): lines.append('dup 5')      # the same matrix rebuilt through the constructor taking all columns (rows beyond the number of columns included)
     def same_class(a, b): return caps['comp'] and dense[a] == dense[b] and dense[a]
     def apply(t, newcol):
         old = dense[t]
